@@ -11,7 +11,9 @@ package main
 
 import (
 	"context"
+	"errors"
 	"fmt"
+	"io"
 	"math/rand"
 	"net"
 	"os"
@@ -64,7 +66,7 @@ type rdScenario struct {
 	Items    []Item
 	Hwm      int64
 	Topic    string // per-scenario topic name: separates the RL.* hook events of concurrently running scenarios
-	Slow     int // > 0: the application sleeps this many ms after every message (QueueCapacity fills up, the fetcher
+	Slow     int    // > 0: the application sleeps this many ms after every message (QueueCapacity fills up, the fetcher
 	// blocks in sendMessage, responses are drained slower than MaxWait: batches end with RequestTimedOut instead of EOF)
 }
 
@@ -479,6 +481,14 @@ func runReader(sc *rdScenario) string {
 	cl := "ok"
 	select {
 	case <-closed:
+		// `reader_api`, clause Close: nothing is handed out any more (FetchMessage = io.EOF, SetOffset = io.ErrClosedPipe)
+		cctx, ccancel := context.WithTimeout(context.Background(), 300*time.Millisecond)
+		if m, err := rd.FetchMessage(cctx); !errors.Is(err, io.EOF) {
+			cl = fmt.Sprintf("ok-but-fetch-after-close:%d:%v", m.Offset, err)
+		} else if err := rd.SetOffset(0); !errors.Is(err, io.ErrClosedPipe) {
+			cl = fmt.Sprintf("ok-but-setoffset-after-close:%v", err)
+		}
+		ccancel()
 	case <-time.After(3 * time.Second):
 		cl = "hung"
 	}
